@@ -9,6 +9,7 @@ import (
 	"fmt"
 	"math/big"
 	"reflect"
+	"runtime"
 	"sort"
 	"strings"
 	"sync"
@@ -222,6 +223,41 @@ var skip = map[string]bool{"SetRandom": true, "MustSetRandom": true, "String": t
 
 var bigPtrT = reflect.TypeOf((*big.Int)(nil))
 
+// lateInts remembers every *big.Int handed to the library as an input together with its value: an input must not be
+// kept by the library and rewritten by a later call either (pooled temporaries), so all of them are compared again
+// when the run of a type is over.
+type lateInt struct {
+	p    *big.Int
+	want *big.Int
+	key  string
+}
+
+var (
+	lateMu   sync.Mutex
+	lateInts = map[string][]lateInt{}
+)
+
+func rememberInt(entry, key string, p *big.Int) {
+	lateMu.Lock()
+	lateInts[entry] = append(lateInts[entry], lateInt{p, new(big.Int).Set(p), key})
+	lateMu.Unlock()
+}
+
+func checkLateInts(c *mon.Ctx, entry string) {
+	lateMu.Lock()
+	l := lateInts[entry]
+	delete(lateInts, entry)
+	lateMu.Unlock()
+	bad := map[string]bool{}
+	for _, x := range l {
+		if x.p.Cmp(x.want) != 0 && !bad[x.key] {
+			bad[x.key] = true
+			c.Fail(entry+"/input-argument-modified-by-a-later-call", "a *big.Int that was passed as an input to %s (value %s) holds %s after later calls on other objects: the library kept it", x.key, x.want, x.p)
+		}
+	}
+	c.Eval(entry+"/late-input-check", len(l))
+}
+
 type meth struct {
 	e     *entry
 	T     reflect.Type // struct or slice type
@@ -235,6 +271,7 @@ func otherArg(t reflect.Type, k int, shape int, variant ...int) (reflect.Value, 
 	case t == bigPtrT:
 		v := int64(5 + 3*k)
 		if len(variant) > 0 {
+			v += 7 * int64(variant[0]) // different magnitudes from call to call: a temporary that is reused shows
 			switch variant[0] % 4 {
 			case 1:
 				v = -v // negative exponents / scalars take their own branch (inverse, negation of a copy)
@@ -403,6 +440,57 @@ func runEntry(c *mon.Ctx, e *entry, skipped map[string]bool) {
 				}
 				c.Class(fmt.Sprintf("%s/partition%v/shape%d", key, part, shape))
 			}
+		}
+		// methods taking *big.Int inputs: a burst of simultaneous calls with negative and positive values from several
+		// goroutines. Temporaries of such routines live in sync.Pools; objects that were wrongly put there (a caller's
+		// exponent) sit in the shared part of the pool and are only handed out again when several Gets are outstanding
+		// at once - after the burst the late check of the remembered inputs sees them rewritten.
+		hasBig := false
+		for k := 1; k < mt.NumIn(); k++ {
+			hasBig = hasBig || mt.In(k) == bigPtrT
+		}
+		if hasBig {
+			var wg sync.WaitGroup
+			for g := 0; g < 64; g++ {
+				wg.Add(1)
+				go func(g int) {
+					defer wg.Done()
+					defer func() { _ = recover() }()
+					for rep := 0; rep < 8; rep++ {
+						runtime.Gosched()
+						recv := reflect.ValueOf(e.Sample(3+g%3, 0))
+						args := make([]reflect.Value, mt.NumIn()-1)
+						ai := 0
+						for k := 1; k < mt.NumIn(); k++ {
+							isAlias := false
+							for _, a := range alias {
+								if a == k {
+									isAlias = true
+								}
+							}
+							switch {
+							case isAlias:
+								o := reflect.ValueOf(e.Sample(4+ai, 0))
+								ai++
+								if mt.In(k).Kind() == reflect.Pointer {
+									args[k-1] = o
+								} else {
+									args[k-1] = o.Elem()
+								}
+							default:
+								v, _ := otherArg(mt.In(k), k, 0, 4*(g+rep)+1+2*(rep%2)) // negative values of many magnitudes
+								args[k-1] = v
+							}
+						}
+						r := recv
+						if mt.In(0).Kind() != reflect.Pointer {
+							r = recv.Elem()
+						}
+						r.MethodByName(m.Name).Call(args)
+					}
+				}(g)
+			}
+			wg.Wait()
 		}
 	}
 }
@@ -705,6 +793,9 @@ func runCase(c *mon.Ctx, e *entry, m reflect.Method, key string, alias, part, va
 			eq := false
 			if mt.In(k) == bigPtrT {
 				eq = got.Interface().(*big.Int).Cmp(ref.Interface().(*big.Int)) == 0
+				if eq {
+					rememberInt(e.Name, key, got.Interface().(*big.Int))
+				}
 			} else {
 				eq = reflect.DeepEqual(got.Elem().Interface(), ref.Elem().Interface())
 			}
@@ -756,6 +847,7 @@ func main() {
 			}()
 			sk := map[string]bool{}
 			runEntry(c, e, sk)
+			checkLateInts(c, e.Name)
 			mu.Lock()
 			for k := range sk {
 				skipped[k] = true
